@@ -3,6 +3,7 @@
 // usage: c03 <B>   (extents 2..B per axis)
 #include <cmath>
 #include <cstdlib>
+#include <limits>
 #include <vp/layers.hpp>
 #include <vp/report.hpp>
 #include <vp/xplore.hpp>
@@ -112,6 +113,11 @@ static void run_cfg(Report & R, size_t Bd, bool full_basis)
                 al[k].push_back(static_cast<C>(i) + static_cast<C>(0.25));
                 if (N <= 3) al[k].push_back(static_cast<C>(i) + static_cast<C>(0.5));
                 if (N <= 4 || i + 2 == ext[k]) al[k].push_back(static_cast<C>(i + 1) - eps);
+                // the closest representable coordinates on either side of a lattice plane, in the coordinate's own precision
+                if (N <= 3) {
+                    al[k].push_back(std::nextafter(static_cast<C>(i + 1), static_cast<C>(0)));
+                    al[k].push_back(std::nextafter(static_cast<C>(i), static_cast<C>(i + 1)));
+                }
             }
             if (K::clamped) {
                 al[k].push_back(static_cast<C>(ext[k] - 1));
@@ -190,7 +196,8 @@ static void run_cfg(Report & R, size_t Bd, bool full_basis)
                         }
                     }
                     const double g = static_cast<double>(got[j]);
-                    const double tol = tolc * static_cast<double>(mag);
+                    // relative term from the operation count + an absolute floor for gradual underflow of weight products
+                    const double tol = tolc * static_cast<double>(mag) + double(size_t(1) << N) * static_cast<double>(std::numeric_limits<C>::min()) * (std::max(std::fabs(vmin), std::fabs(vmax)) + 1.0);
                     const double err = std::fabs(static_cast<double>(static_cast<q128>(g) - exact));
                     R.observe(fnv_of(g));
                     auto cs = [&]() { return cas + "/pat=" + pat + (onehot >= 0 ? std::to_string(onehot) : "") + "/x" + vec_str(ci.x, N) + "/j" + std::to_string(j); };
